@@ -16,7 +16,9 @@ Definition opt (k : str) (o : option json) : members :=
 (* ---------------------------------------------------------------- syntax *)
 Record xexit := { xe_uuid : str; xe_dest : option json }.          (* None: key absent *)
 Record xgroup := { xg_name : str; xg_uuid : str }.                  (* a reference {name, uuid} *)
-Record xtop := { xt_name : str; xt_uuid : str; xt_attrs : members }. (* top-level group + query/status/… *)
+(* top-level group; xt_attrs: query/status/system/count, aligned with Group.render's attribute
+   list [group_optional_attrs] (None: key absent; a shorter list: the remaining keys absent) *)
+Record xtop := { xt_name : str; xt_uuid : str; xt_attrs : list (option json) }.
 Record xflowref := { xr_name : str; xr_uuid : str }.
 Record xfield := { xf_name : json; xf_key : json; xf_type : option json }.
 
@@ -66,8 +68,13 @@ Record xdoc := { xd_campaigns : list xcampaign; xd_fields : list json; xd_flows 
 Definition emit_exit (x : xexit) : json :=
   JObj (opt k_destination_uuid (xe_dest x) ++ [(k_uuid, JStr (xe_uuid x))]).
 Definition emit_group (g : xgroup) : json := JObj [(k_name, JStr (xg_name g)); (k_uuid, JStr (xg_uuid g))].
+Fixpoint opts (ks : list str) (vs : list (option json)) : members :=
+  match ks, vs with
+  | k :: ks', v :: vs' => opt k v ++ opts ks' vs'
+  | _, _ => []
+  end.
 Definition emit_top (g : xtop) : json :=
-  JObj ([(k_name, JStr (xt_name g)); (k_uuid, JStr (xt_uuid g))] ++ xt_attrs g).
+  JObj ([(k_name, JStr (xt_name g)); (k_uuid, JStr (xt_uuid g))] ++ opts group_optional_attrs (xt_attrs g)).
 Definition emit_flowref (f : xflowref) : json := JObj [(k_name, JStr (xr_name f)); (k_uuid, JStr (xr_uuid f))].
 Definition emit_field (f : xfield) : json :=
   JObj ([(k_name, xf_name f); (k_key, xf_key f)] ++ opt k_type (xf_type f)).
